@@ -270,6 +270,12 @@ func Apply(root *json.Object, p *presence.Presence, e *Edit) error {
 			return ErrUnresolvable
 		}
 		a.MoveAfterByIndex(e.I, e.J)
+	case "arr.before": // move element J right before element I
+		a, ok := c.(*json.Array)
+		if !ok || e.I >= a.Len() || e.J >= a.Len() || e.I == e.J {
+			return ErrUnresolvable
+		}
+		a.MoveBefore(a.Get(e.I).CreatedAt(), a.Get(e.J).CreatedAt())
 	case "arr.front":
 		a, ok := c.(*json.Array)
 		if !ok || e.I >= a.Len() {
